@@ -178,7 +178,7 @@ fn rename(e: &Ev, from: Slot, to: Slot) -> Ev {
         Ev::DropSlot { slot } => Ev::DropSlot { slot: r(slot) },
         Ev::Rebind { slot } => Ev::Rebind { slot: r(slot) },
         Ev::Swap { a, b } => Ev::Swap { a: r(a), b: r(b) },
-        Ev::Update { slots, lr } => Ev::Update { slots: rv(slots), lr: *lr },
+        Ev::Update { slots, lr, opt, keep_stale } => Ev::Update { slots: rv(slots), lr: *lr, opt: *opt, keep_stale: *keep_stale },
         Ev::Refuse(Refuse::Elementwise(a, b)) => Ev::Refuse(Refuse::Elementwise(r(a), r(b))),
         Ev::Refuse(Refuse::MatmulInner(a, b)) => Ev::Refuse(Refuse::MatmulInner(r(a), r(b))),
         Ev::Refuse(Refuse::ReshapeCount(a, d)) => Ev::Refuse(Refuse::ReshapeCount(r(a), d.clone())),
@@ -318,7 +318,14 @@ pub fn final_obs(sim: &Sim) -> Vec<ObsRec> {
 pub fn c12_compare(base: &Sim, base_final: &[ObsRec], trace: &[Ev], ps: &[Perturb], regime: Regime) -> Option<Violation> {
     let (pt, renames) = apply(trace, ps);
     let evs: Vec<Ev> = pt.iter().map(|x| x.1.clone()).collect();
-    let fork = run_trace(&evs, regime, false);
+    // same guards as the base run (which evaluates them because its monitors are on)
+    let fork = {
+        let mut sim = Sim::new(crate::sim::SimCfg { regime, monitors: false, guard_mag: true });
+        let mut src = crate::train::ListSource { evs: &evs, i: 0 };
+        let mut rec = Vec::new();
+        crate::train::drive(&mut sim, &mut src, &mut rec);
+        sim
+    };
     // map fork event indices back to base indices
     let back: Vec<usize> = pt.iter().map(|x| x.0).collect();
     let unname = |event: usize, slot: Slot| -> Slot {
@@ -475,7 +482,7 @@ pub fn executed_mask(trace: &[Ev], regime: Regime) -> Vec<bool> {
 
 /// Which events executed, and which node every slot holds after every event.
 pub fn executed_mask_nodes(trace: &[Ev], regime: Regime) -> (Vec<bool>, Vec<Vec<Option<usize>>>) {
-    let mut sim = Sim::new(crate::sim::SimCfg { regime, monitors: false, guard_mag: false });
+    let mut sim = Sim::new(crate::sim::SimCfg { regime, monitors: false, guard_mag: true });
     let mut m = Vec::with_capacity(trace.len());
     let mut nodes = Vec::with_capacity(trace.len());
     for e in trace {
@@ -689,4 +696,123 @@ pub fn c17_judge(events: &[Ev], regime: Regime, case: &C17Case) -> Vec<Violation
         vs.extend(c17_case(events, regime, case).0);
     }
     vs
+}
+
+// ------------------------------------------------------------------------------ systematic sweeps
+
+fn permutations(n: usize, limit: usize) -> Vec<Vec<usize>> {
+    fn rec(cur: &mut Vec<usize>, used: &mut Vec<bool>, n: usize, out: &mut Vec<Vec<usize>>, limit: usize) {
+        if out.len() >= limit {
+            return;
+        }
+        if cur.len() == n {
+            out.push(cur.clone());
+            return;
+        }
+        for i in 0..n {
+            if !used[i] {
+                used[i] = true;
+                cur.push(i);
+                rec(cur, used, n, out, limit);
+                cur.pop();
+                used[i] = false;
+            }
+        }
+    }
+    let mut out = Vec::new();
+    rec(&mut Vec::new(), &mut vec![false; n], n, &mut out, limit);
+    out
+}
+
+/// C18: after the history, drop the result handles in every (or a few seeded) order(s), then
+/// probe every remaining leaf handle. The verdict is the ordinary retire monitor's.
+pub fn c18_orders(out: &RunOut, seed: u64, exhaustive: bool) -> (Vec<Violation>, u64, u64) {
+    if out.sim.dead || has_update(&out.trace) && out.sim.train.iterations > 0 {
+        return (vec![], 0, 0);
+    }
+    let s = &out.sim;
+    let results: Vec<Slot> = s.live_slots().into_iter().filter(|x| s.g.nodes[s.node_of(*x).unwrap()].has_graph || s.g.nodes[s.node_of(*x).unwrap()].op.is_some()).collect();
+    let leaves: Vec<Slot> = s.live_slots().into_iter().filter(|x| !results.contains(x)).collect();
+    if results.len() < 2 || results.len() > 6 || leaves.is_empty() {
+        return (vec![], 0, 0);
+    }
+    let mut rng = Rng::new(seed ^ 0xC18);
+    let orders: Vec<Vec<usize>> = if exhaustive {
+        permutations(results.len(), 720)
+    } else {
+        (0..2)
+            .map(|_| {
+                let mut o: Vec<usize> = (0..results.len()).collect();
+                rng.shuffle(&mut o);
+                o
+            })
+            .collect()
+    };
+    let mut forks = 0;
+    for o in &orders {
+        let mut evs = out.trace.clone();
+        evs.push(Ev::DropHeld);
+        for i in o {
+            evs.push(Ev::DropSlot { slot: results[*i] });
+        }
+        let mut ls = leaves.clone();
+        rng.shuffle(&mut ls);
+        for l in &ls {
+            evs.push(Ev::Retire { slot: *l });
+        }
+        forks += 1;
+        let sim = run_trace(&evs, out.regime, true);
+        if let Some(v0) = sim.violations.iter().find(|x| x.prop == "C18" && x.event >= out.trace.len()) {
+            let mut x = v0.clone();
+            x.extra = serde_json::json!({ "trace": evs });
+            return (vec![x], forks, orders.len() as u64);
+        }
+    }
+    (vec![], forks, orders.len() as u64)
+}
+
+/// C10: construction events only, then ordered pairs / triples of passes over the live roots;
+/// absolute monitors and the solo oracle judge each schedule.
+pub fn c10_sweep(out: &RunOut, seed: u64, exhaustive: bool) -> (Vec<Violation>, u64) {
+    if out.sim.dead || has_update(&out.trace) {
+        return (vec![], 0);
+    }
+    let s = &out.sim;
+    let roots: Vec<Slot> = s.live_slots().into_iter().filter(|x| s.g.nodes[s.node_of(*x).unwrap()].has_graph).collect();
+    if roots.len() < 2 || roots.len() > 6 {
+        return (vec![], 0);
+    }
+    let base: Vec<Ev> = out.trace.iter().map(|e| if matches!(e, Ev::Pass { .. } | Ev::GradClear { .. }) { Ev::Nop } else { e.clone() }).collect();
+    let mut rng = Rng::new(seed ^ 0xC10);
+    let mut schedules: Vec<Vec<Slot>> = Vec::new();
+    if exhaustive {
+        for a in &roots {
+            for b in &roots {
+                schedules.push(vec![*a, *b]);
+            }
+        }
+        for _ in 0..roots.len() * 4 {
+            schedules.push(vec![*rng.pick(&roots), *rng.pick(&roots), *rng.pick(&roots)]);
+        }
+    } else {
+        for _ in 0..2 {
+            let k = 2 + rng.below(2);
+            schedules.push((0..k).map(|_| *rng.pick(&roots)).collect());
+        }
+    }
+    let mut forks = 0;
+    for sch in &schedules {
+        let mut evs = base.clone();
+        for r in sch {
+            evs.push(Ev::Pass { root: *r, seed: Seed::None, via_clone: false });
+        }
+        forks += 1;
+        let vs = c10_judge(&evs, out.regime);
+        if let Some(v0) = vs.iter().find(|x| x.prop == "C10" && x.event >= base.len()) {
+            let mut x = v0.clone();
+            x.extra = serde_json::json!({ "trace": evs });
+            return (vec![x], forks);
+        }
+    }
+    (vec![], forks)
 }
